@@ -342,6 +342,13 @@ Record fl_cfg := {
   c_shared : bool          (* H's id is also used by a handler of another cause (F8) *)
 }.
 
+(* what daemons.stop_daemons does to D's task in one call (the staging by age/backoff/timeout is in
+   Model/FinalizersDaemon.v; here it is an oracle of the cycle) *)
+Inductive fl_stop :=
+| SStill        (* flagged / signalled / cancelled, the task is still running: a delay is reported *)
+| SExited       (* the task was done before, or finished within the "instant exit" wait: no delay *)
+| SAbandoned.   (* cancellation_timeout exhausted: marked DAEMON_ABANDONED, left orphaned, no delay *)
+
 (* oracles of one processing cycle *)
 Record fl_orc := {
   k_spawn_others : list fz_sh;     (* the other daemons/timers as the decision sees them *)
@@ -353,7 +360,8 @@ Record fl_orc := {
   k_cdelays_others : list Z;
   k_h_finishes : bool;             (* H, if invoked, finishes in this cycle (success or permanent failure) *)
   k_other_rec : bool;              (* c_shared: what the other cause's run leaves in the record under H's id *)
-  k_extra_merge : bool             (* the merge-patch has other content (progress of others, results, diff-base) *)
+  k_extra_merge : bool;            (* the merge-patch has other content (progress of others, results, diff-base) *)
+  k_stop : fl_stop                 (* outcome of stop_daemons for D, if it is called in this cycle *)
 }.
 
 Inductive fl_label :=
@@ -365,7 +373,6 @@ Inductive fl_label :=
 | LMerge                           (* patch_obj: the merge-patch request is served *)
 | LJson                            (* patch_obj: the ops are computed and the JSON-patch request is served *)
 | LDaemonExit
-| LAbandon
 | LRestart.
 
 Definition fl_own_part (own : string) (l : list string) : list string := filter (String.eqb own) l.
@@ -402,19 +409,29 @@ Definition fl_set_daemon (s : fl_state) (d : fl_daemon) (forever : bool) : fl_st
   {| sv := sv s; g_foreign := g_foreign s; g_done := g_done s; p_view := p_view s; p_carried := p_carried s;
      p_flight := p_flight s; p_daemon := d; p_forever := forever |}.
 
-(* the daemon part of process_spawning_cause on view v: (new task state, D's own delays) *)
-Definition fl_spawning (c : fl_cfg) (v : fl_srv) (d : fl_daemon) (forever : bool) : fl_daemon * list Z :=
-  if v_deleting v then                                   (* stop_daemons *)
+(* stop_daemons on D's entry of memory.running_daemons (present while the runner task has not finished) *)
+Definition fl_staged (stop : fl_stop) (d : fl_daemon) : fl_daemon * list Z :=
+  match d with
+  | DLive | DStopping =>
+      match stop with
+      | SStill => (DStopping, [0%Z])
+      | SExited => (DExited, [])
+      | SAbandoned => (DAbandoned, [])
+      end
+  | DAbandoned => (DAbandoned, [])           (* still in the dict, its timeouts stay exhausted: no delay *)
+  | _ => (d, [])                             (* not in the dict *)
+  end.
+
+(* the daemon part of process_spawning_cause on view v: (new task state, D's own delays).
+   handlers = registry._spawning.get_handlers(cause, excluded=forever_stopped); spawn_daemons starts those not in
+   the dict; match_daemons stops (staged) those in the dict that are not among the handlers. *)
+Definition fl_spawning (c : fl_cfg) (v : fl_srv) (d : fl_daemon) (forever : bool) (stop : fl_stop) : fl_daemon * list Z :=
+  if v_deleting v then fl_staged stop d                  (* stop_daemons *)
+  else
+    let selected := c_dmn c && v_mdmn v && negb forever in
     match d with
-    | DLive | DStopping => (DStopping, [0%Z])
-    | _ => (d, [])
-    end
-  else                                                   (* spawn_daemons; match_daemons *)
-    match d with
-    | DIdle | DExited | DAbandoned =>
-        if c_dmn c && v_mdmn v && negb forever then (DLive, []) else (d, [])
-    | DLive => if v_mdmn v then (DLive, []) else (DStopping, [0%Z])
-    | DStopping => (DStopping, [0%Z])
+    | DIdle | DExited => if selected then (DLive, []) else (d, [])
+    | DLive | DStopping | DAbandoned => if selected then (d, []) else fl_staged stop d
     end.
 
 (* the atoms of the cycle on view v *)
@@ -444,10 +461,11 @@ Definition fl_h_delay (c : fl_cfg) (v : fl_srv) (k : fl_orc) : list Z :=
 
 Definition fl_cycle (c : fl_cfg) (s : fl_state) (v : fl_srv) (k : fl_orc) : fl_state :=
   if negb (v_alive v) then
-    (* DELETED event: memories.forget; nothing is applied *)
-    fl_set_op s None [] FNone
+    (* DELETED event: memories.forget (the daemons' memory goes with it: a still running task is an orphan nobody
+       knows of); nothing is applied *)
+    fl_set_daemon (fl_set_op s None [] FNone) DIdle false
   else
-    let '(d', dd) := fl_spawning c v (p_daemon s) (p_forever s) in
+    let '(d', dd) := fl_spawning c v (p_daemon s) (p_forever s) (k_stop k) in
     let a := fl_atoms c s v k dd (fl_h_delay c v k) in
     let out := fz_decide a in
     let fns := p_carried s ++ o_fns out in
@@ -517,12 +535,7 @@ Definition fl_step (c : fl_cfg) (s : fl_state) (l : fl_label) : option fl_state 
   | LDaemonExit =>
       match p_daemon s with
       | DLive => Some (fl_set_daemon s DExited true)           (* exited on its own: forever_stopped *)
-      | DStopping => Some (fl_set_daemon s DExited (p_forever s))
-      | _ => None
-      end
-  | LAbandon =>
-      match p_daemon s with
-      | DStopping => Some (fl_set_daemon s DAbandoned (p_forever s))
+      | DStopping | DAbandoned => Some (fl_set_daemon s DExited (p_forever s))   (* after a stop flag: may be respawned *)
       | _ => None
       end
   | LRestart =>
@@ -548,6 +561,21 @@ Definition fl_framework_label (l : fl_label) : bool := match l with LJson => tru
 Definition fl_releases (c : fl_cfg) (s s' : fl_state) : bool :=
   fl_mem (c_own c) (v_fins (sv s)) && negb (fl_mem (c_own c) (v_fins (sv s'))).
 Definition fl_calm (l : fl_label) : bool := match l with LMatch _ _ => false | _ => true end.
+
+(* a weaker guard than fl_calm: a label/annotation/spec edit is admitted if it keeps the filters' verdicts, or if the
+   operator is quiescent for this object (no undelivered view, nothing in flight, nothing carried) *)
+Definition fl_op_quiet (s : fl_state) : bool :=
+  match p_view s, p_carried s, p_flight s with None, [], FNone => true | _, _, _ => false end.
+Definition fl_steady (s : fl_state) (l : fl_label) : bool :=
+  match l with
+  | LMatch a b => (Bool.eqb a (v_mdel (sv s)) && Bool.eqb b (v_mdmn (sv s))) || fl_op_quiet s
+  | _ => true
+  end.
+Fixpoint fl_run_steady (c : fl_cfg) (s : fl_state) (tr : list fl_label) : option fl_state :=
+  match tr with
+  | [] => Some s
+  | l :: tr' => if fl_steady s l then match fl_step c s l with Some s' => fl_run_steady c s' tr' | None => None end else None
+  end.
 
 (* ---------- equalities for the correspondence checks ---------- *)
 Fixpoint fz_fns_eqb (a b : list fz_fn) : bool :=
